@@ -722,6 +722,13 @@ def concrete_failure(prop, m):
         a, b = used(m.get('only_impl')), used(m.get('only_model'))
         if any(k in b and a[k] > b[k] for k in a):
             return True
+    if prop == 'C18' and m.get('kind') == 'state' and any(k in op for k in ('tx planCreate', 'tx nodeSubscribe', 'tx planSubscribe', 'tx sessStart')):
+        # identifiers are issued as count+1 (Props/C18 *_ids_issued_in_order): the record created by this message sits
+        # under a different identifier on the implementation than in the model
+        newkeys = lambda ls: {x.split()[3] for x in (ls or []) if x.startswith('+S vpn plan 10') or x.startswith('+S vpn subscription 10') or x.startswith('+S vpn session 10')}
+        a, b = newkeys(m.get('only_impl')), newkeys(m.get('only_model'))
+        if a and b and a != b:
+            return True
     if prop == 'C18' and m.get('kind') == 'state':
         # settlement books a session's bytes on the allocation of the subscription the session was started on
         # (Props/C18 session_settled_against_its_own_subscription; allocations and payouts carry their subscription's
@@ -833,8 +840,9 @@ def check_property(prop, tier, seed):
             body['failing_input'] = m['op']
         violations.append(('correspondence broken: %s at op %d of %s seed %d' % (m['kind'], m['index'], m['profile'], m['seed']), body))
     for h in corr['monitor_hits']:
-        if h.get('reimport_before') and prop != 'C12':
-            continue   # consequences of the round trip (F5) are C12's findings
+        if h.get('reimport_before') and prop != 'C12' and h.get('side') != 'impl':
+            continue   # consequences of the round trip that the model shares (F5: subscriptions lost) are C12's findings;
+                       # a monitor that fails on the implementation's state ONLY is not explained by them
         mon = h['monitor'].split()[1] if len(h['monitor'].split()) > 1 else ''
         if mon in P.get('monitors', []):
             sig = match_finding(findings, h)
